@@ -54,6 +54,9 @@ func concPrograms(tier string, seed int64) []conc.Program {
 		conc.Program{Tag: "handle-vs-replace", Start: "file-b", Threads: [][]conc.Op{{{Name: "append", P: "b", Data: d1}}, {{Name: "remove", P: "b"}, {Name: "writefile", P: "b", Data: d2}}}},
 		conc.Program{Tag: "handle-vs-replace", Start: "file-b", Threads: [][]conc.Op{{{Name: "append", P: "b", Data: d1}}, {{Name: "writefile", P: "a", Data: d2}, {Name: "rename", P: "a", Q: "b"}}}},
 		conc.Program{Tag: "handle-vs-replace", Start: "dir-a-file-a/c", Threads: [][]conc.Op{{{Name: "append", P: "a/c", Data: d1}}, {{Name: "remove", P: "a/c"}, {Name: "writefile", P: "a/c", Data: d2}}}},
+		// a handle that creates the name while the other goroutine renames a file onto it (the look-up of the new name and the
+		// transaction that moves the file are separate): the creating handle's write must not replace the renamed file
+		conc.Program{Tag: "handle-vs-replace", Start: "file-b", Threads: [][]conc.Op{{{Name: "createappend", P: "a", Data: d1}}, {{Name: "rename", P: "b", Q: "a"}}}},
 	)
 	if tier == "thorough" {
 		rnd := rand.New(rand.NewSource(seed))
